@@ -181,6 +181,8 @@ def _failure_key(node, acc):
 
 def check_case(case):
     H.setup_path()
+    if "large" in case:
+        case = dict(case, tree=large_tree(*case["large"]))
     node = case["tree"] if "tree" in case else None
     if node is not None:
         text = X.render(node)
@@ -362,7 +364,39 @@ def _sample_worker(job):
     return s
 
 
+def large_tree(n, shift, style):
+    """A body of some tens of kilobytes: n leaves under a few aggregates, every third one CDATA-wrapped, some without end
+    tag; `shift` moves everything by a few characters so that fixed block boundaries fall on every kind of token."""
+    kids = [{"t": "PAD", "d": "p" * (shift + 1), "end": True, "ga": ""}]
+    group = []
+    for i in range(n):
+        leaf = {"t": "L%d" % (i % 7), "d": ("v%d %s" % (i, "x" * (i % 5))).strip(), "end": (i + style) % 4 != 0, "ga": "\n" if i % 11 == 0 else ""}
+        if i % 3 == style % 3:
+            leaf["cdata"] = True
+        group.append(leaf)
+        if len(group) == 50:
+            kids.append({"t": "G", "c": group, "g": "", "ga": ""})
+            group = []
+    if group:
+        kids.append({"t": "G", "c": group, "g": "", "ga": ""})
+    return disambiguate({"t": "OFX", "c": kids, "g": "", "ga": ""})
+
+
+def _large_worker(jobs):
+    H.setup_path()
+    s = H.Stats()
+    for n, shift, style in jobs:
+        case = {"large": [n, shift, style], "file": True}
+        text = X.render(large_tree(n, shift, style))
+        s.case({"large": [n, shift, style]}, nontrivial=True, labels=["large body (%d KB)" % (len(text) // 1024)])
+        for k, d in check_case(case):
+            s.fail(k + "/large-body", case, d[:300])
+    return s
+
+
 def run(ctx):
+    sizes = [(800, 0), (1500, 3), (3000, 1), (6000, 2)] if not ctx.thorough else [(n, 0) for n in (800, 1100, 1500, 2300, 3000, 4500, 6000, 9000)]
+    ctx.pmap(_large_worker, [[(n, sh + k, st_) for st_ in (0, 1, 2)] for n, sh in sizes for k in (0, 4)])
     nmax = ctx.scale(4, 5)
     jobs = []
     for nn in range(1, nmax + 1):
